@@ -776,6 +776,45 @@ func (g *jgen) tplTopics(maxSubs int) *jScenario {
 	return s
 }
 
+// tplJoined: subscriptions whose topic lists would read the same if their names were put together with the
+// spelling's separator ({1, 2} and {3}; {2, 4} and {5}; {1, 2, 4}, {3, 4}, {1, 5} and {6}; {0, 0}-like {7}; {0, 1} and {8})
+// all registered before one publisher goes through the single names, the joined names and pairs.
+func (g *jgen) tplJoined(shape int) *jScenario {
+	s := g.base()
+	var subs, msgs [][]uint64
+	switch shape % 3 {
+	case 0:
+		subs = [][]uint64{{1, 2}, {3}}
+		msgs = [][]uint64{{1}, {3}, {2}, {1, 2}, {3, 4}}
+	case 1:
+		subs = [][]uint64{{3}, {1, 2}, {2, 4}, {5}}
+		msgs = [][]uint64{{2}, {5}, {4}, {3}, {1}}
+	default:
+		subs = [][]uint64{{6}, {1, 2, 4}, {3, 4}, {1, 5}, {7}, {0}, {8}, {0, 1}, {9}}
+		msgs = [][]uint64{{1}, {6}, {4}, {0}, {7}, {8}, {5}, {3}, {9}}
+	}
+	if shape >= 3 {
+		for i := len(subs) - 1; i > 0; i-- {
+			j := g.r.Intn(i + 1)
+			subs[i], subs[j] = subs[j], subs[i]
+		}
+		for i := len(msgs) - 1; i > 0; i-- {
+			j := g.r.Intn(i + 1)
+			msgs[i], msgs[j] = msgs[j], msgs[i]
+		}
+	}
+	for _, t := range subs {
+		s.subs = append(s.subs, jSubSpec{topics: t})
+	}
+	pt := jPubSpec{start: jEvN(34, jAny, uint64(len(subs)))}
+	for _, t := range msgs {
+		pt.msgs = append(pt.msgs, jMsgSpec{topics: t})
+	}
+	s.pubs = append(s.pubs, pt)
+	s.shuts = []jShutSpec{jFinalShut()}
+	return s
+}
+
 // ---- (b) failure x cancellation ------------------------------------------------------------------
 
 // late: the directed class "the failed subscriber's unsubscription still reaches the loop": the failing call ends
@@ -1861,6 +1900,18 @@ func genJoe(c *Ctx) {
 			s := g.tplTopics(maxSubs)
 			s.spell = uint64(sp)
 			g.emit("joe", "topic-names/"+jSpellings[sp].name, s)
+		}
+	}
+	// names that are joins of other names: subscriptions on {a, b}, on {a<sep>b} (and variants) side by side, publications
+	// on the single names, the joined name and both; every separator, three shapes
+	for sp := 1; sp < len(jSpellings); sp++ {
+		if _, ok := jJoinSeps[jSpellings[sp].name]; !ok {
+			continue
+		}
+		for shape := 0; shape < 3*mult/2; shape++ {
+			s := g.tplJoined(shape)
+			s.spell = uint64(sp)
+			g.emit("joe", "topic-names-joined/"+jSpellings[sp].name, s)
 		}
 	}
 	for n := 0; n < 80*mult; n++ {
